@@ -365,8 +365,9 @@ impl<'a> Parser<'a> {
 
     fn parse_type_inner(&mut self) -> PResult<Expr> {
         let pos = self.pos();
-        match self.tok().clone() {
+        match self.tok() {
             Tok::Ident(n) => {
+                let n = n.clone();
                 self.next();
                 let mut x = Expr { pos, kind: ExprKind::Ident(n) };
                 if self.tok() == &Tok::Period {
@@ -556,24 +557,29 @@ impl<'a> Parser<'a> {
 
     fn operand(&mut self) -> PResult<Expr> {
         let pos = self.pos();
-        match self.tok().clone() {
+        match self.tok() {
             Tok::Int(s) => {
+                let s = s.clone();
                 self.next();
                 Ok(Expr { pos, kind: ExprKind::IntLit(s) })
             }
             Tok::Float(s) => {
+                let s = s.clone();
                 self.next();
                 Ok(Expr { pos, kind: ExprKind::FloatLit(s) })
             }
             Tok::Char(c) => {
+                let c = *c;
                 self.next();
                 Ok(Expr { pos, kind: ExprKind::CharLit(c) })
             }
             Tok::Str(s) => {
+                let s = s.clone();
                 self.next();
                 Ok(Expr { pos, kind: ExprKind::StrLit(s) })
             }
             Tok::Ident(n) => {
+                let n = n.clone();
                 self.next();
                 Ok(Expr { pos, kind: ExprKind::Ident(n) })
             }
@@ -795,7 +801,7 @@ impl<'a> Parser<'a> {
 
     fn stmt_inner(&mut self) -> PResult<Stmt> {
         let pos = self.pos();
-        match self.tok().clone() {
+        match self.tok() {
             Tok::Semi { .. } => Ok(Stmt { pos, kind: StmtKind::Empty }),
             Tok::Var => {
                 self.next();
@@ -899,7 +905,7 @@ impl<'a> Parser<'a> {
             lhs.push(self.expr()?);
         }
         let tpos = self.pos();
-        match self.tok().clone() {
+        match self.tok() {
             Tok::Define => {
                 self.next();
                 if self.tok() == &Tok::Range {
